@@ -55,7 +55,7 @@ def ingest(pid, which, srcroot="/tmp/seed", base=None):
             shutil.copy(os.path.join(src, f), os.path.join(wt, target_dir, f))
             placed.append(os.path.join(target_dir, f))
         cmd = meta["demo_cmd"]
-        cmd = re.sub(r"/tmp/seed\d*/wt-%s\b" % pid, wt, cmd)
+        cmd = re.sub(r"/tmp/seed\w*/wt-%s\b" % pid, wt, cmd)
         if "cd " not in cmd:
             cmd = "cd %s && %s" % (wt, cmd)
         # without the change
